@@ -332,15 +332,17 @@ def c19(ck, replay=None):
         ck.evaluations += int(out.get('n_exec', 0))
         for m in out.get('mismatches', []):
             c = m['case']
-            ck.violation({'leg': 'L2', 'kind': m['what'], 'case': c, 'batch_size': c[0], 'wait': c[1], 'custom_end': c[2],
+            ck.violation({'leg': 'L2', 'kind': m['what'], 'clock': m.get('clock'), 'case': c, 'batch_size': c[0], 'wait': c[1],
+                          'custom_end': c[2],
                           'arrival_times': c[3], 'expected_yields_t_first_items': c[4], 'observed': m.get('got'),
                           'detail': m.get('detail')},
-                         sig={'leg': 'L2', 'kind': m['what'], 'b': c[0], 'w': c[1]})
+                         sig={'leg': 'L2', 'kind': m['what'], 'clock': m.get('clock'), 'b': c[0], 'w': c[1]})
         nc, nh = int(out.get('canary_items', 0)), len(out.get('canaries', []))
         if (nc < 20 or nh != nc) and not out.get('mismatches'):  # (code that disagrees anyway may agree with a canary)
             raise Machinery(f'C19 comparison is vacuous: {nh} of {nc} wrong expectations were flagged')
         ck.sensitivity['binder flags deliberately wrong expectations (yield time / partition / wait)'] = f'{nh}/{nc} flagged'
-        ck.legs.append({'leg': 'L2', 'name': 'every eager behaviour replayed on the virtual clock', 'replays': len(lines),
+        ck.legs.append({'leg': 'L2', 'name': 'every eager behaviour replayed on the frozen and on the ticking virtual clock',
+                        'replays': 2 * len(lines),
                         'init_states': n_inits, 'mismatches': len(out.get('mismatches', []))})
         if lines:
             ck.sample({'kind': 'replayed_behaviour', 'b_w_custom_times_yields': json.loads(lines[len(lines) // 2])})
@@ -351,7 +353,9 @@ def c19(ck, replay=None):
     for sc in scs:
         for j in range(8 if thorough else 5):
             k += 1
-            t_items.append({'id': k, 'sc': sc, 'seed': rnd.randrange(1 << 30), 'strategy': strategies[j % len(strategies)]})
+            # every other execution with a ticking clock (time elapses between statements)
+            t_items.append({'id': k, 'sc': sc, 'seed': rnd.randrange(1 << 30), 'strategy': strategies[j % len(strategies)],
+                            'eps': 1e-7 if k % 2 == 0 else 0.0})
     out = ck.run_binder('eagerbatcher', t_items, extra={'kind': 'threads'})
     ck.evaluations += int(out.get('n_exec', 0))
     for h in out.get('hangs', []):
@@ -364,11 +368,12 @@ def c19(ck, replay=None):
                                          for e in t['ev']))
     ck.validate('EagerBatcher over a real queue.Queue fed by a producer thread (detsched, virtual time)',
                 'EagerBatcherTrace', EB_TRACE_CFG, traces, chunk=400,
-                sig_of=lambda t, v: {'b': t['sc']['b'], 'w': t['sc']['w'],
+                sig_of=lambda t, v: {'b': t['sc']['b'], 'w': t['sc']['w'], 'ticking_clock': bool(t.get('eps')),
                                      'inv': (json.loads(v['last'])[-1] if v.get('last') else None)})
     ck.legs.append({'leg': 'L3', 'name': 'traces in which a timeout and an arrival fall on the same instant', 'count': races})
-    ck.assumptions += ['time is virtual and integer; the code\'s own execution takes no time (so "already queued past the '
-                       'deadline" only arises for wait time 0 and for exact ties)',
+    ck.assumptions += ['time is virtual; on the frozen clock the code\'s own execution takes no time, on the ticking clock every '
+                       'clock read is 1e-7 later than the previous one (so the deadline is strictly past when the loop '
+                       're-reads the clock: "already queued even past it")',
                        'thread leg: detsched preempts at synchronisation points; the queue log lines are written inside '
                        'the queue\'s critical section']
     ck.finish_rc = ck.finish(rule='L1: all arrival schedules (<=5 items, gaps 0..3) x b in 1..3 x w in 0..2 x end-marker flag, '
